@@ -54,11 +54,13 @@ Definition hexval_any (c : Z) : option Z :=
 (* getu4 on a text starting with \uXXXX: the code unit, or None *)
 Definition getu4 (s : gostring) : option Z :=
   match s with
-  | 92 :: 117 :: a :: b :: c :: d :: _ =>
-      match hexval_any a, hexval_any b, hexval_any c, hexval_any d with
-      | Some x, Some y, Some z, Some w => Some (x * 4096 + y * 256 + z * 16 + w)
-      | _, _, _, _ => None
-      end
+  | c0 :: c1 :: a :: b :: c :: d :: _ =>
+      if (c0 =? 92) && (c1 =? 117) then
+        match hexval_any a, hexval_any b, hexval_any c, hexval_any d with
+        | Some x, Some y, Some z, Some w => Some (x * 4096 + y * 256 + z * 16 + w)
+        | _, _, _, _ => None
+        end
+      else None
   | _ => None
   end.
 
@@ -76,29 +78,50 @@ Definition encode_rune (r : Z) : gostring :=
 
 (* the scanner's view of a string literal body (after the opening quote): well-formed escapes,
    no control bytes, ends at the closing quote with nothing after it *)
+Definition simple_escape (e : Z) : bool :=
+  (e =? 98) || (e =? 102) || (e =? 110) || (e =? 114) || (e =? 116) || (e =? 92) || (e =? 47) || (e =? 34).
+
 Fixpoint jscan_body (fuel : nat) (s : gostring) : bool :=
   match fuel with
   | O => false
   | S f =>
       match s with
       | [] => false
-      | 34 :: rest => match rest with [] => true | _ => false end
-      | 92 :: e :: t =>
-          if (e =? 98) || (e =? 102) || (e =? 110) || (e =? 114) || (e =? 116) || (e =? 92) || (e =? 47) || (e =? 34)
-          then jscan_body f t
-          else if e =? 117 then
+      | c :: t =>
+          if c =? 34 then match t with [] => true | _ => false end
+          else if c =? 92 then
             match t with
-            | a :: b :: c :: d :: t' =>
-                match hexval_any a, hexval_any b, hexval_any c, hexval_any d with
-                | Some _, Some _, Some _, Some _ => jscan_body f t'
-                | _, _, _, _ => false
-                end
-            | _ => false
+            | [] => false
+            | e :: t' =>
+                if simple_escape e then jscan_body f t'
+                else if e =? 117 then
+                  match t' with
+                  | a :: b :: c' :: d :: t'' =>
+                      match hexval_any a, hexval_any b, hexval_any c', hexval_any d with
+                      | Some _, Some _, Some _, Some _ => jscan_body f t''
+                      | _, _, _, _ => false
+                      end
+                  | _ => false
+                  end
+                else false
             end
-          else false
-      | c :: t => if c <? 32 then false else if c =? 92 then false else jscan_body f t
+          else if c <? 32 then false
+          else jscan_body f t
       end
   end.
+
+(* the byte a one-letter escape stands for (unquoteBytes also accepts \' ) *)
+Definition unescape_simple (e : Z) : option Z :=
+  if (e =? 34) || (e =? 92) || (e =? 47) || (e =? 39) then Some e
+  else if e =? 98 then Some 8
+  else if e =? 102 then Some 12
+  else if e =? 110 then Some 10
+  else if e =? 114 then Some 13
+  else if e =? 116 then Some 9
+  else None.
+
+Definition cons_opt (pre : gostring) (r : option gostring) : option gostring :=
+  match r with Some x => Some (pre ++ x) | None => None end.
 
 (* unquoteBytes on the body (between the quotes) *)
 Fixpoint junquote_body (fuel : nat) (s : gostring) : option gostring :=
@@ -107,40 +130,34 @@ Fixpoint junquote_body (fuel : nat) (s : gostring) : option gostring :=
   | S f =>
       match s with
       | [] => Some []
-      | 92 :: e :: t =>
-          let simple (b : Z) := match junquote_body f t with Some r => Some (b :: r) | None => None end in
-          if (e =? 34) || (e =? 92) || (e =? 47) || (e =? 39) then simple e
-          else if e =? 98 then simple 8
-          else if e =? 102 then simple 12
-          else if e =? 110 then simple 10
-          else if e =? 114 then simple 13
-          else if e =? 116 then simple 9
-          else if e =? 117 then
-            match getu4 s with
-            | None => None
-            | Some rr =>
-                let after := skipn 6 s in
-                if is_surrogate rr then
-                  let rr1 := match getu4 after with Some x => x | None => -1 end in
-                  let dec := utf16_decode rr rr1 in
-                  if negb (dec =? rune_error) then
-                    match junquote_body f (skipn 6 after) with Some r => Some (encode_rune dec ++ r) | None => None end
-                  else
-                    match junquote_body f after with Some r => Some (encode_rune rune_error ++ r) | None => None end
-                else
-                  match junquote_body f after with Some r => Some (encode_rune rr ++ r) | None => None end
-            end
-          else None
-      | [92] => None
       | c :: t =>
-          if (c =? 34) || (c <? 32) then None
-          else if c <? 128 then match junquote_body f t with Some r => Some (c :: r) | None => None end
+          if c =? 92 then
+            match t with
+            | [] => None
+            | e :: t' =>
+                match unescape_simple e with
+                | Some b => cons_opt [b] (junquote_body f t')
+                | None =>
+                    if e =? 117 then
+                      match getu4 s with
+                      | None => None
+                      | Some rr =>
+                          let after := skipn 6 s in
+                          if is_surrogate rr then
+                            let rr1 := match getu4 after with Some x => x | None => -1 end in
+                            let dec := utf16_decode rr rr1 in
+                            if negb (dec =? rune_error) then cons_opt (encode_rune dec) (junquote_body f (skipn 6 after))
+                            else cons_opt (encode_rune rune_error) (junquote_body f after)
+                          else cons_opt (encode_rune rr) (junquote_body f after)
+                      end
+                    else None
+                end
+            end
+          else if (c =? 34) || (c <? 32) then None
+          else if c <? 128 then cons_opt [c] (junquote_body f t)
           else
             let '(rr, size) := decode s in
-            match junquote_body f (skipn (Z.to_nat size) s) with
-            | Some r => Some (encode_rune rr ++ r)
-            | None => None
-            end
+            cons_opt (encode_rune rr) (junquote_body f (skipn (Z.to_nat size) s))
       end
   end.
 
